@@ -31,7 +31,7 @@ func relation(p, q ec.Point) string {
 }
 
 func group(x *mon.Ctx) {
-	e := setup(x, x.Scale(6, 32))
+	e := setup(x, x.Scale(6, 32), true)
 	var set []*npoint
 	if x.Thorough() {
 		set = e.ps.all
@@ -83,6 +83,50 @@ func group(x *mon.Ctx) {
 			c.End()
 		}
 	}
+	// points with sparse coordinates: doubled, and added to themselves, their negatives, G, the next sparse point
+	sp := e.ps.sparse
+	for i, p := range sp {
+		others := []*npoint{p, {name: "-(" + p.name + ")", kind: p.kind, p: ec.Neg(p.p)}, e.ps.small[0], sp[(i+1)%len(sp)], e.ps.inf}
+		c := x.Begin("Double / IsOnCurve: P=%s", p.name)
+		if c != nil {
+			c.Class("double/%s", p.kind)
+			px, py := affine(p.p)
+			var gx, gy *big.Int
+			if c.Call("Double", func() { gx, gy = e.cv.Double(px, py) }) {
+				eqXY(c, fmt.Sprintf("Double(%s)", ptStr(p.p)), gx, gy, ec.Double(p.p))
+			}
+			var on bool
+			if c.Call("IsOnCurve", func() { on = e.cv.IsOnCurve(px, py) }) && !on {
+				c.Fail("reject", "IsOnCurve(%s) = false", ptStr(p.p))
+			}
+			c.End()
+		}
+		for j, q := range others {
+			for swap := 0; swap < 2; swap++ {
+				a, b := p, q
+				if swap == 1 {
+					if j < 2 {
+						continue
+					}
+					a, b = q, p
+				}
+				rel := relation(a.p, b.p)
+				c := x.Begin("Add: P=%s Q=%s (%s)", a.name, b.name, rel)
+				if c == nil {
+					continue
+				}
+				c.Class("add/%s/%s/%s", rel, a.kind, b.kind)
+				ax, ay := affine(a.p)
+				bx, by := affine(b.p)
+				var gx, gy *big.Int
+				if c.Call("Add", func() { gx, gy = e.cv.Add(ax, ay, bx, by) }) {
+					eqXY(c, fmt.Sprintf("Add(%s, %s)", ptStr(a.p), ptStr(b.p)), gx, gy, ec.Add(a.p, b.p))
+				}
+				c.Event("add/"+rel, 1)
+				c.End()
+			}
+		}
+	}
 }
 
 // slot is one library point paired with the reference value it must represent.
@@ -114,7 +158,7 @@ func checkEnc(c *mon.Case, what string, q *verifhook.SM2P256Point, want ec.Point
 func newPt() *verifhook.SM2P256Point { return verifhook.NewSM2P256Point() }
 
 func jacobian(x *mon.Ctx) {
-	e := setup(x, x.Scale(12, 48))
+	e := setup(x, x.Scale(12, 48), true)
 
 	// A. equal / opposite / infinite operands in different projective representations
 	reps := x.Scale(1, 4)
@@ -262,11 +306,13 @@ func walk(c *mon.Case, e *env) {
 	pool := make([]slot, 4)
 	for i := range pool {
 		var p *npoint
-		switch r.Intn(4) {
+		switch r.Intn(5) {
 		case 0:
 			p = e.ps.small[r.Intn(16)]
 		case 1:
 			p = e.ps.extreme[r.Intn(len(e.ps.extreme))]
+		case 2:
+			p = e.ps.sparse[r.Intn(len(e.ps.sparse))]
 		default:
 			p = e.ps.random[r.Intn(len(e.ps.random))]
 		}
